@@ -572,6 +572,24 @@ type render struct {
 	r     *Rand
 	style int // 0 none/minimal, 1 random redundant, 2 full
 	upper bool
+	// tight: no blank around the symbolic operators and after commas, so that the operator bytes
+	// stand directly next to brackets, quotes and each other: a[0]>=1, f(x)>=1, (a)>=(b), x&!f(y)
+	tight bool
+}
+
+// sp: the blank around an operator (word operators always need theirs)
+func (rd *render) sp(op string) string {
+	if rd.tight && !opWords[op] {
+		return ""
+	}
+	return " "
+}
+
+func (rd *render) comma() string {
+	if rd.tight {
+		return ","
+	}
+	return ", "
 }
 
 func (rd *render) word(s string) string {
@@ -618,7 +636,7 @@ func (rd *render) text(n *ppNode, need int) string {
 		for _, k := range n.kids {
 			a = append(a, rd.text(k, 0))
 		}
-		s = rd.word(n.text) + "(" + strings.Join(a, ", ") + ")"
+		s = rd.word(n.text) + "(" + strings.Join(a, rd.comma()) + ")"
 	case "access":
 		s = rd.text(n.kids[0], 7) + "[" + rd.text(n.kids[1], 0) + "]"
 	case "list":
@@ -626,7 +644,7 @@ func (rd *render) text(n *ppNode, need int) string {
 		for _, k := range n.kids {
 			a = append(a, rd.text(k, 0))
 		}
-		return "(" + strings.Join(a, ", ") + ")" // never wrapped again
+		return "(" + strings.Join(a, rd.comma()) + ")" // never wrapped again
 	case "bin":
 		p := readmePrec[n.op]
 		l, r := n.kids[0], n.kids[1]
@@ -636,7 +654,7 @@ func (rd *render) text(n *ppNode, need int) string {
 			// the right operand must not start with `(` (that would be a list)
 			s = rd.text(l, p) + " " + rd.opText("in") + " " + rd.textNoParen(r)
 		} else {
-			s = rd.text(l, p) + " " + rd.opText(n.op) + " " + rd.text(r, p+1)
+			s = rd.text(l, p) + rd.sp(n.op) + rd.opText(n.op) + rd.sp(n.op) + rd.text(r, p+1)
 		}
 		if rd.style == 2 || n.prec() < need {
 			return "(" + s + ")"
@@ -710,6 +728,22 @@ var (
 	valueA = atom{"value", "F2"}
 )
 
+// wideStrs: literals the canonical printer and the lexer must carry byte for byte: `%` (a format
+// verb if the literal ever becomes a format string), a backslash (the language has no escapes),
+// 2-, 3- and 4-byte UTF-8 sequences, and more than 300 bytes
+var longLit = strings.Repeat("abcdefghij", 30) + "k"
+var wideStrs = []string{"100%", "%s", "50%%", "%d items", "save 50% now", "%", "a\\b", "\\", "é", "café", "键", "键2", "😅", "x😅y", "naïve", longLit, longLit + "%é"}
+
+func wideAtoms() []atom {
+	as := make([]atom, len(wideStrs))
+	for i, w := range wideStrs {
+		as[i] = sLit(w)
+	}
+	return as
+}
+
+var strAtomsWide = wideAtoms()
+
 func atomsOf(typ string) []atom {
 	switch typ {
 	case "bool":
@@ -719,7 +753,10 @@ func atomsOf(typ string) []atom {
 		return []atom{keyA, valueA, sLit("a"), sLit("k1"), sLit(""), callA("lower", keyA), callA("upper", sLit("x")),
 			{"json(value)['a']", "A(C(I:" + hxs("json") + ";F2),S:" + hxs("a") + ")"},
 			{"split(key, '_')[1]", "A(C(I:" + hxs("split") + ";F1,S:" + hxs("_") + "),M:" + hxs("1") + ")"},
-			{"json(value)['a']['b']", "A(A(C(I:" + hxs("json") + ";F2),S:" + hxs("a") + "),S:" + hxs("b") + ")"}}
+			{"json(value)['a']['b']", "A(A(C(I:" + hxs("json") + ";F2),S:" + hxs("a") + "),S:" + hxs("b") + ")"},
+			sLit("100%"), sLit("%s"), sLit("é"), sLit("键😅"), sLit("a\\b")}
+	case "strwide":
+		return strAtomsWide
 	case "num":
 		return []atom{nLit("1"), nLit("2"), nLit("10"), fLit("1.5"), fLit("0.25"), callA("int", valueA), callA("strlen", keyA), callA("float", valueA)}
 	case "listcall":
@@ -759,6 +796,9 @@ func assign(r *Rand, n *ppNode, want string, nextIsArith func(*ppNode) bool) {
 			want = "listcall"
 		}
 		a := pick(r, atomsOf(want))
+		if want == "str" && r.Chance(1, 8) {
+			a = pick(r, atomsOf("strwide"))
+		}
 		n.text, n.shp, n.typ = a.text, a.shape, want
 	case "list":
 		for _, k := range n.kids {
@@ -812,6 +852,9 @@ type treeGen struct {
 
 func (g *treeGen) leafOf(typ string) *ppNode {
 	a := pick(g.r, atomsOf(typ))
+	if typ == "str" && g.r.Chance(1, 8) {
+		a = pick(g.r, atomsOf("strwide"))
+	}
 	n := leaf(a.text, a.shape)
 	n.typ = typ
 	return n
@@ -1100,11 +1143,13 @@ func runPARSE(e *Env) (*Summary, error) {
 	rec(nil)
 	nTrees := e.n(6000, 150000)
 	nStmts := e.n(6000, 150000)
-	rule := fmt.Sprintf("(a) all %d sequences of 1..%d binary operators over %v with operands typed so that the expression checks where the operators allow, each as text without parentheses, with random redundant parentheses and fully parenthesised, random letter case, as WHERE expression and as select field; (b) %d random typed expression trees to depth 6 rendered minimally / redundantly / fully; (c) %d statements of the typed generator (select with aliases, order, group, limit; put; remove; delete), each with 3 single-edit corruptions and random leading/trailing blanks. Every case: engine Parse vs model Parse (correspondence); tree shape vs the README-table oracle and print→re-parse (C15); error offsets (C17); panics (C06). Non-trivial: distinct accepted trees and distinct rejected texts",
+	nSeq5 := e.n(1200, 40000) // random sequences of 5 operators (18^5 in all)
+	nWide := e.n(1500, 40000) // statements with wide literals, long words and LIMIT numbers ≥ 2^31
+	rule := fmt.Sprintf("(a) all %d sequences of 1..%d binary operators (and "+fmt.Sprint(nSeq5)+" random sequences of 5) over %v with operands typed so that the expression checks where the operators allow, each as text without parentheses, with random redundant parentheses and fully parenthesised, one in four also without blanks around the symbolic operators, random letter case, as WHERE expression and as select field; one text operand in eight is a literal with %%, a backslash, multi-byte UTF-8 or more than 300 bytes; (d) "+fmt.Sprint(nWide)+" statements (select / put / remove / delete) over such literals, 300-byte words and LIMIT numbers up to 2^63-1 whose parsed Start/Count are also compared with the numbers written (C08); (b) %d random typed expression trees to depth 6 rendered minimally / redundantly / fully; (c) %d statements of the typed generator (select with aliases, order, group, limit; put; remove; delete), each with 3 single-edit corruptions and random leading/trailing blanks. Every case: engine Parse vs model Parse (correspondence); tree shape vs the README-table oracle and print→re-parse (C15); error offsets (C17); panics (C06). Non-trivial: distinct accepted trees and distinct rejected texts",
 		len(seqs), maxLen, ppBinOps, nTrees, nStmts)
 	col := NewCollector("PARSE", e.Tier, e.Seed, rule)
 	col.sum.Exhaustive = true
-	total := uint64(len(seqs)) + uint64(nTrees) + uint64(nStmts)
+	total := uint64(len(seqs)) + uint64(nTrees) + uint64(nStmts) + uint64(nSeq5) + uint64(nWide)
 	err := e.parallel(func(w int, d *Driver) error {
 		for ix := uint64(w); ix < total; ix += uint64(e.Workers) {
 			r := NewRand(e.Seed, "PARSE", ix)
@@ -1117,8 +1162,20 @@ func runPARSE(e *Env) (*Summary, error) {
 				if err := parseTreeCase(col, d, r, e.Seed, ix); err != nil {
 					return err
 				}
-			default:
+			case ix < uint64(len(seqs)+nTrees+nStmts):
 				if err := parseStmtCase(col, d, r, e.Seed, ix); err != nil {
+					return err
+				}
+			case ix < uint64(len(seqs)+nTrees+nStmts+nSeq5):
+				ops := make([]string, 5)
+				for i := range ops {
+					ops[i] = pick(r, ppBinOps)
+				}
+				if err := parseSeqCase(col, d, r, ops, e.Seed, ix); err != nil {
+					return err
+				}
+			default:
+				if err := parseWideCase(col, d, r, e.Seed, ix); err != nil {
 					return err
 				}
 			}
@@ -1146,14 +1203,22 @@ func parseSeqCase(col *Collector, d *Driver, r *Rand, ops []string, seed, idx ui
 		}
 	}
 	assign(r, tree, "bool", func(n *ppNode) bool { return follow[n] })
-	for style := 0; style < 3; style++ {
-		rd := &render{r: r, style: style, upper: r.Bool()}
+	nStyles := 3
+	if idx%4 == 0 {
+		nStyles = 6 // the three renditions again without blanks around the symbolic operators
+	}
+	for st := 0; st < nStyles; st++ {
+		style := st % 3
+		rd := &render{r: r, style: style, upper: r.Bool(), tight: st >= 3}
 		text := rd.text(tree, 0)
 		if style == 0 {
 			// the raw sequence: no parentheses at all
 			text = rawSequence(rd, ops, slots)
 		}
 		label := fmt.Sprintf("seq%d/style%d", len(ops), style)
+		if rd.tight {
+			label += "/tight"
+		}
 		for _, q := range []string{"select * where " + text, rd.word("where") + " " + text} {
 			eng, _, err := parseCompare(col, d, parseCase{q, label}, seed, idx)
 			if err != nil {
@@ -1182,7 +1247,7 @@ func rawSequence(rd *render, ops []string, slots []*ppNode) string {
 	si := 0
 	b.WriteString(rd.slotText(slots[0]))
 	for _, op := range ops {
-		b.WriteString(" " + rd.opText(op) + " ")
+		b.WriteString(rd.sp(op) + rd.opText(op) + rd.sp(op))
 		si++
 		b.WriteString(rd.slotText(slots[si]))
 		if op == "between" {
@@ -1204,11 +1269,18 @@ func (rd *render) slotText(n *ppNode) string {
 func parseTreeCase(col *Collector, d *Driver, r *Rand, seed, idx uint64) error {
 	g := &treeGen{r: r}
 	tree := g.boolT(1 + r.Intn(6))
+	tightAll := r.Chance(1, 4)
 	for style := 0; style < 3; style++ {
-		rd := &render{r: r, style: style, upper: r.Chance(1, 3)}
+		rd := &render{r: r, style: style, upper: r.Chance(1, 3), tight: tightAll}
 		text := rd.text(tree, 0)
 		label := fmt.Sprintf("tree/style%d", style)
+		if tightAll {
+			label += "/tight"
+		}
 		q := "select * where " + text
+		if tightAll && style == 1 {
+			q += ";" // the statement separator directly behind a bracket, quote or word
+		}
 		eng, _, err := parseCompare(col, d, parseCase{q, label}, seed, idx)
 		if err != nil {
 			return err
@@ -1259,6 +1331,93 @@ func parseStmtCase(col *Collector, d *Driver, r *Rand, seed, idx uint64) error {
 		if idx%1499 == 0 {
 			col.Sample(c.q)
 		}
+	}
+	return nil
+}
+
+// parseWideCase: statements whose literals, words and numbers leave the small pools: literals with
+// `%`, a backslash, multi-byte UTF-8, more than 300 bytes; names of more than 300 bytes; LIMIT
+// numbers ≥ 2^31, ≥ 2^32 and up to 2^63-1.  Correspondence, print → re-parse (C15), error offsets
+// (C17), and for LIMIT the parsed Start/Count against the numbers written (C08: `limit s, n`
+// selects rows s … s+n-1, so the statement must carry s and n).
+func parseWideCase(col *Collector, d *Driver, r *Rand, seed, idx uint64) error {
+	lit := func() string { return "'" + pick(r, wideStrs) + "'" }
+	limNums := []uint64{0, 1, 5, 2147483647, 2147483648, 2147483653, 4294967295, 4294967296, 4294967297, 4294967301, 9223372036854775807}
+	longWord := strings.Repeat("w", 300+r.Intn(8)) + pick(r, []string{"", "1", "_x"})
+	hasLimit, lstart, lcount := false, uint64(0), uint64(0)
+	limit := func() string {
+		hasLimit = true
+		lcount = pick(r, limNums)
+		if r.Bool() {
+			lstart = pick(r, limNums)
+			return fmt.Sprintf(" limit %d, %d", lstart, lcount)
+		}
+		return fmt.Sprintf(" limit %d", lcount)
+	}
+	var q string
+	switch r.Intn(12) {
+	case 0:
+		q = "select * where key = " + lit()
+	case 1:
+		q = "select key, " + lit() + " as x where value ^= " + lit() + " & key in (" + lit() + ", " + lit() + ")"
+	case 2:
+		q = "put (" + lit() + ", " + lit() + ")"
+		if r.Bool() {
+			q += ", (" + lit() + ", upper(" + lit() + "))"
+		}
+	case 3:
+		q = "remove " + lit() + ", " + lit()
+	case 4:
+		q = "delete where key between " + lit() + " and " + lit()
+		if r.Bool() {
+			q += limit()
+		}
+	case 5:
+		q = "select lower(" + lit() + ") + value, split(value, " + lit() + ")[0] where value ~= " + lit() + " | " + lit() + " < key"
+	case 6:
+		q = "select key as " + longWord + " where " + longWord + " = " + lit()
+	case 7:
+		q = "select " + longWord + "(key) where key = 'a'"
+	case 8:
+		q = "select * where key ^= 'k'" + limit()
+	case 9:
+		q = "select key, int(value) as n where key ^= 'k' order by n" + pick(r, []string{"", " desc"}) + limit()
+	case 10:
+		q = "select key, count(1) where key ^= 'k' group by key" + limit()
+	default:
+		q = "delete where value = " + lit() + limit()
+	}
+	if r.Chance(1, 6) {
+		q += pick(r, []string{";", " ;", "  "})
+	}
+	c := parseCase{q, "wide"}
+	eng, _, err := parseCompare(col, d, c, seed, idx)
+	if err != nil {
+		return err
+	}
+	line := "PARSE " + hxs(q) + " " + floatTable(q)
+	parseProps(col, c, eng, line, seed, idx)
+	if hasLimit {
+		col.Hist("wide-limit")
+		var l *kvql.LimitStmt
+		switch x := eng.stmt.(type) {
+		case *kvql.SelectStmt:
+			l = x.Limit
+		case *kvql.DeleteStmt:
+			l = x.Limit
+		}
+		got := "no LIMIT in the statement: " + eng.line
+		if eng.err == nil && l != nil {
+			got = fmt.Sprintf("start=%d count=%d", l.Start, l.Count)
+		}
+		want := fmt.Sprintf("start=%d count=%d", lstart, lcount)
+		if got != want {
+			col.Find(Finding{Kind: "property", Group: "PARSE", Check: "limit-numbers", Case: fmt.Sprintf("%q", q), Line: line,
+				Engine: clip(got), Model: want + " (the numbers written)", Seed: seed, Index: idx, Properties: []string{"C08"}})
+		}
+	}
+	if idx%499 == 0 {
+		col.Sample(clip(q))
 	}
 	return nil
 }
